@@ -1704,6 +1704,9 @@ impl<'a, 'b, W: Write> Serializer for &'a mut YamlSerializer<'b, W> {
             self.write_plain_or_quoted(variant)?;
             self.out.write_str(":\n")?;
             self.at_line_start = true;
+            // Do not let an inline-first-key hint (set for the value of a complex `? key`
+            // entry) leak into the first field that is itself a mapping or a sequence.
+            self.pending_inline_map = false;
             // Fields indent one more level under the variant label.
             let depth_next = base + 1;
             return Ok(StructVariantSer {
